@@ -54,6 +54,23 @@ def delimited_jelly_hint(header: bytes) -> bool:
     )
 
 
+class _PrefixedReader:
+    """Minimal readable stream serving `prefix` first and then the rest of `inp`."""
+
+    def __init__(self, prefix: bytes, inp: IO[bytes]) -> None:
+        self._prefix = prefix
+        self._inp = inp
+
+    def read(self, size: int = -1) -> bytes:
+        if size is None or size < 0:
+            data, self._prefix = self._prefix + self._inp.read(), b""
+            return data
+        data, self._prefix = self._prefix[:size], self._prefix[size:]
+        if len(data) < size:
+            data += self._inp.read(size - len(data))
+        return data
+
+
 def frame_iterator(inp: IO[bytes]) -> Generator[jelly.RdfStreamFrame]:
     while frame := parse_length_prefixed(jelly.RdfStreamFrame, inp):
         yield frame
@@ -83,7 +100,13 @@ def get_options_and_frames(
         # it to determine if it's delimited.
         # See also: https://github.com/Jelly-RDF/pyjelly/issues/298
         inp = io.BufferedReader(inp)  # type: ignore[arg-type, type-var, unused-ignore]
-        is_delimited = delimited_jelly_hint(inp.peek(3))
+        header = inp.peek(3)
+        if len(header) < 3:  # noqa: PLR2004
+            # peek() does at most one raw read, which may be short (pipes, sockets);
+            # read() waits for 3 bytes or EOF, so consume them and chain them back.
+            header = inp.read(3)
+            inp = _PrefixedReader(header, inp)  # type: ignore[assignment]
+        is_delimited = delimited_jelly_hint(header[:3])
     else:
         is_delimited = delimited_jelly_hint(bytes_read := inp.read(3))
         inp.seek(-len(bytes_read), os.SEEK_CUR)
